@@ -23,8 +23,9 @@ package tink
 //@ ensures[C16:layout-valid] err == nil ==> result != nil && result.pos == 0 && result.segIndex == -1 && specReaderInv(result)
 //@ ensures[C16:whole-stream] err == nil ==> result.ciphertextLen == result_of(r.Seek, 0) - base && result.base == base
 
-// loadSegment: on success segment j is the buffered, authenticated segment; on failure the reader is unchanged, so a
-// later Read cannot serve bytes of a segment that failed authentication; a ciphertext stream that ends early is an
+// loadSegment: on success segment j is the buffered, authenticated segment; on failure either nothing is buffered any
+// more (segIndex -1) or the reader is unchanged and its buffer was not handed to the cipher (AES-GCM Open overwrites its
+// destination also when authentication fails), so a later Read cannot serve bytes that are not authenticated plaintext; a ciphertext stream that ends early is an
 // error, never a clean io.EOF (which Read would pass on as the end of the plaintext).
 //@ func (*seekableDecryptingReader).loadSegment
 //@ arith int
@@ -33,8 +34,9 @@ package tink
 //@ frame
 //@ ensures[C16:load-ok] err == nil ==> s.segIndex == j && specReaderInv(s)
 //@ ensures[C16:load-error-not-eof] err != io.EOF
-//@ ensures[C16:load-failed-unchanged] err != nil ==> s.segIndex == old(s.segIndex) && s.segStart == old(s.segStart) &&
-//@     len(s.plaintext) == old(len(s.plaintext)) && specReaderInv(s)
+//@ ensures[C16:load-failed-keeps-the-invariant] err != nil ==> specReaderInv(s)
+//@ ensures[C16:load-failed-unchanged] err != nil ==> s.segIndex == -1 ||
+//@     s.segIndex == old(s.segIndex) && s.segStart == old(s.segStart) && len(s.plaintext) == old(len(s.plaintext)) && !called(s.cipher.Open)
 
 // Read: copies from the buffered segment at the offset of the current position inside it; io.EOF is only returned at
 // or after the end of the plaintext and only once the final segment (the one that proves the stream was not cut) is the
